@@ -755,15 +755,69 @@ fn decoy() -> impl Strategy<Value = String> {
         .prop_map(|(fmt, n, named, meta, line, numbers, strip_marker)| decoy_line(&Decoy { fmt, n, named, meta, line, numbers, strip_marker }))
 }
 
-/// single-line printable text: empty, arbitrary, a hand-listed string that looks like a line of one of the formats,
-/// or a line taken from the export of a decoy palette (same or another format)
+/// SYNTAX SOUP: a short text assembled from the significant characters and token shapes of the palette syntaxes an importer
+/// could plausibly accept (the five formats here, CSS / HTML colours, "r g b name" lists), in random combination, alone or
+/// embedded in ordinary words. Not derived from what the exporters write today, so it also covers syntaxes an importer may learn.
+fn soup_token() -> impl Strategy<Value = String> {
+    let hex_run = (
+        prop::sample::select(vec!["", "#", "0x", "$"]),
+        prop_oneof![1 => Just(3usize), 3 => Just(6usize), 1 => Just(8usize)],
+        prop::collection::vec(prop::sample::select("0123456789abcdefABCDEF".chars().collect::<Vec<char>>()), 8),
+    )
+        .prop_map(|(pre, n, digits)| format!("{pre}{}", digits[..n].iter().collect::<String>()));
+    let triple = (any::<Rgb>(), prop::sample::select(vec![" ", ",", "\t", ", ", "  ", ";", "/"]))
+        .prop_map(|(c, sep)| format!("{}{sep}{}{sep}{}", c.0, c.1, c.2));
+    let keyword = (
+        prop::sample::select(vec!["", "#", ";"]),
+        prop::sample::select(vec![
+            "Name", "Palette Name", "Author", "Description", "Colors", "Columns", "Color", "GIMP Palette", "JASC-PAL", "ICE Palette", "paint.net Palette File", "RIFF", "PAL", "rgb",
+            "hex", "0100", "16", "256",
+        ]),
+        prop::sample::select(vec!["", ":", ": ", "=", " ="]),
+    )
+        .prop_map(|(m, k, c)| format!("{m}{k}{c}"));
+    prop_oneof![
+        3 => prop::sample::select(vec!["#", ";", ":", "=", ",", "\t", "$", "0x", " ", "  ", "/", "(", ")"]).prop_map(str::to_string),
+        4 => hex_run,
+        3 => triple,
+        1 => any::<Rgb>().prop_map(|c| format!("rgb({},{},{})", c.0, c.1, c.2)),
+        1 => any::<Rgb>().prop_map(|c| format!("{} {} {} name", c.0, c.1, c.2)),
+        1 => any::<Rgb>().prop_map(|c| format!("{:3} {:3} {:3}\tUntitled", c.0, c.1, c.2)),
+        3 => keyword,
+        1 => (0u32..=300).prop_map(|n| n.to_string()),
+        3 => prop::sample::select(vec!["Shades", "of", "my", "sunset", "v2", "by", "x"]).prop_map(str::to_string),
+    ]
+}
+
+fn soup() -> impl Strategy<Value = String> {
+    (
+        prop::collection::vec((soup_token(), prop::sample::select(vec!["", " ", " ", "\t", ",", ":", "="])), 1..=5),
+        prop::sample::select(vec!["", "", " ", "\t", "  "]),
+        prop::sample::select(vec!["", "", " ", "\t"]),
+    )
+        .prop_map(|(toks, lead, trail)| {
+            let mut s = String::from(lead);
+            for (i, (t, sep)) in toks.iter().enumerate() {
+                if i > 0 {
+                    s.push_str(sep);
+                }
+                s.push_str(t);
+            }
+            s.push_str(trail);
+            s
+        })
+}
+
+/// single-line text: empty, arbitrary printable, a hand-listed string that looks like a line of one of the formats,
+/// a line taken from the export of a decoy palette (same or another format), or syntax soup
 fn text() -> impl Strategy<Value = String> {
     prop_oneof![
         3 => Just(String::new()),
-        6 => printable(),
+        5 => printable(),
         1 => prop::sample::select(vec![" ", "1 2 3", "12 34 56 x", "aabbcc", "FFAABBCC", "#Name: x", "#Description: y", ";Palette Name: z", "GIMP Palette", "JASC-PAL"])
             .prop_map(str::to_string),
         2 => decoy(),
+        4 => soup(),
     ]
 }
 
@@ -932,9 +986,11 @@ fn main() {
          parser_ops: one ansi::Parser + 80x25 terminal buffer + caret, 1..=40 sequences out of {SGR 38/48;2;r;g;b (single, fg+bg pair, 'the same RGB again'), \
          CTerm CSI 0/1;r;g;b t, SGR 38/48;5;n, SGR 30-37/40-47/90-97/100-107, OSC 4;k;rgb:rr/gg/bb[;k;rgb:..] ST with k = the index just handed out | an existing index | 0..15 | \
          a new index | any 0..=255, RIS, a letter}; RGB from a pool of 8 (8/9) or arbitrary. Non-trivial: at least one request that appended, one that found its colour present and one OSC 4. \
-         files: format in {Hex,Pal,Gpl,Ice,Txt}, 0..=16 or 0..=256 colours with optional names, title/author/description/name texts each empty (3/12), \
-         printable single-line text (6/12), a hand-listed string imitating a line of one of the formats (1/12) or a line of the exported file of a decoy palette \
-         (0..=3 colours, any of the five formats, verbatim or with every number replaced, with or without its leading #/; marker) (2/12). Non-trivial: at least one colour. \
+         files: format in {Hex,Pal,Gpl,Ice,Txt}, 0..=16 or 0..=256 colours with optional names, title/author/description/name texts each empty (3/15), \
+         printable single-line text (5/15), a hand-listed string imitating a line of one of the formats (1/15), a line of the exported file of a decoy palette \
+         (0..=3 colours, any of the five formats, verbatim or with every number replaced, with or without its leading #/; marker) (2/15), or syntax soup (4/15): \
+         1..=5 tokens out of {# ; : = , tab $ 0x / ( ), hex runs of 3/6/8 digits bare or behind # 0x $, decimal triples separated by blank/comma/tab/;//, rgb(r,g,b), \
+         'r g b name', header keywords of all formats with/without marker and colon, numbers, ordinary words} joined by nothing/blank/tab/,/:/=, optional leading/trailing blanks. Non-trivial: at least one colour. \
          sixbit_vga / sixbit_ega: every (r,g,b) in 0..64^3 once; the EGA part puts the colour into text-colour slot (i ^ i>>6 ^ i>>12) & 15 of the standard \
          64-entry EGA table. Non-trivial: colour other than (0,0,0). Distinct by case hash.",
     );
